@@ -171,8 +171,14 @@ def putPath : DV → List DV → DV → Res DV
           else do let c ← putPath (xs.getD z absent) rest v; pure (.arr (listSet xs z c))
         | none =>
           if i < 0 then throw .raise
-          else if !rest.isEmpty then throw (.unmodelled "array extension with deeper indices")
-          else pure (.arr (xs ++ List.replicate (i.toNat - xs.length - 1) (.s .null) ++ [v]))
+          else do
+            -- the new slot starts as null; a deeper index turns it into a map (string index) or an array (int index)
+            let slot ← (match rest with
+              | [] => pure v
+              | .s (.str _) :: _ => putPath (.map []) rest v
+              | .s (.int _) :: _ => putPath (.arr []) rest v
+              | _ => throw .raise)
+            pure (.arr (xs ++ List.replicate (i.toNat - xs.length - 1) (.s .null) ++ [slot]))
     | _ => throw .raise
   | _, _, _ => throw (.unmodelled "indexed assignment into a scalar")
 
